@@ -49,6 +49,14 @@ def run(rep, props, replay=None):
         coef = np.round(rng.normal(size=(n, r)) * np.linspace(3, 1, r) * 16) / 16
         X = float(rng.choice([1.0, 5.0, 0.2])) * (coef @ basis) + float(rng.choice([0.0, 4.0])) * (1 + u)
         d = fd.dense(x, X)
+        if i % 2 == 1:
+            # multi-step history: the object has been analysed before and its curves were then replaced
+            # through the public setter; every relation must hold for the CURRENT curves
+            from FDApy.representation.values import DenseValues
+            Xold = X[::-1] * 0.5 + 3.0
+            d = fd.dense(x, Xold)
+            d.mean(); d.center(); fit(d, "covariance", False, 1)
+            d.values = DenseValues(X.copy())
         qx = C.qlist(x)
         for method in ("covariance", "inner-product"):
             for normalize in (False, True):
